@@ -277,6 +277,8 @@ def run(tier):
     else:
         ck.broken.append(dict(kind="proof", module="pyabel_drv", why="driver build failed", log=log[-1500:]))
     oracle(ck, tier, deep or bool(ck.broken))
+    from harness import daunmachine
+    daunmachine.run_sessions(ck, tier, suite="K.daun-cache")          # zero strength / no regularisation / regularised requests in any order vs the cache machine of C07Daun
     return ck.finish()
 
 
